@@ -16,6 +16,7 @@ package golang
 
 import (
 	"fmt"
+	"go/token"
 	"path/filepath"
 	"reflect"
 	"regexp"
@@ -225,7 +226,33 @@ func (cu *CodeUtils) GetPackageName(ast *parser.Thrift) string {
 // NamespaceToPackage converts a namespace to a package.
 func (cu *CodeUtils) NamespaceToPackage(ns string) string {
 	parts := strings.Split(ns, ".")
-	return strings.ToLower(parts[len(parts)-1])
+	return validPackageName(strings.ToLower(parts[len(parts)-1]))
+}
+
+// validPackageName turns the last namespace element (or the IDL file name when
+// no namespace is given, e.g. "my-file" or "1st") into a legal Go package
+// name: other characters become '_', a leading digit gets a '_' prefix and a
+// Go keyword a '_' suffix. Names that are already legal are returned as is.
+func validPackageName(name string) string {
+	var sb strings.Builder
+	for i, r := range name {
+		switch {
+		case r == '_' || (r >= 'a' && r <= 'z') || (r >= 'A' && r <= 'Z') || r > 0x7f:
+			sb.WriteRune(r)
+		case r >= '0' && r <= '9':
+			if i == 0 {
+				sb.WriteByte('_')
+			}
+			sb.WriteRune(r)
+		default:
+			sb.WriteByte('_')
+		}
+	}
+	name = sb.String()
+	if token.IsKeyword(name) {
+		name += "_"
+	}
+	return name
 }
 
 // NamespaceToImportPath returns an import path for the given namespace.
